@@ -216,7 +216,7 @@ class Env:
         with self.app.ctx() as m:
             mps = m.MultiPeriodStream(name=MPS_NAME, title="C10/C11 multi-period stream")
             m.db.session.add(mps)
-            for idx, (directory, secs) in enumerate((("bbb", 20), ("tears", 24), ("mk", 12), ("lay", 12)), start=1):
+            for idx, (directory, secs) in enumerate((("bbb", 20), ("tears", 24), ("mk", 12), ("lay", 12), ("sd", 12)), start=1):
                 stream = m.Stream.get(directory=directory)
                 prd = m.Period(pid=f"p{idx}", parent=mps, ordering=idx, stream=stream,
                                start=datetime.timedelta(seconds=0),
@@ -238,7 +238,14 @@ class Env:
 
     # ------------------------------------------------------------------ queries
     def stored_keys(self) -> dict[bytes, tuple[bytes, bool]]:
-        """kid -> (key, computed) read straight from the key table"""
+        """kid -> (key, computed) read straight from the key table (read once: the checks never
+        change the table after the environment is built)"""
+        if getattr(self, "_keys_cache", None) is not None:
+            return dict(self._keys_cache)
+        self._keys_cache = self._stored_keys()
+        return dict(self._keys_cache)
+
+    def _stored_keys(self) -> dict[bytes, tuple[bytes, bool]]:
         with self.app.ctx() as m:
             rows = m.db.session.execute(m.db.text("SELECT hkid, hkey, computed FROM key")).all()
         out = {}
@@ -251,6 +258,12 @@ class Env:
         return out
 
     def media(self):
+        """cached: the media table does not change after the environment is built"""
+        if getattr(self, "_media_cache", None) is None:
+            self._media_cache = self._media()
+        return [dict(m) for m in self._media_cache]
+
+    def _media(self):
         """[(stream directory, media name, content_type, encrypted, kids (bytes), default_kid,
         init_pos, init_size, blob path)]"""
         out = []
